@@ -90,6 +90,11 @@ type world struct {
 	cancelFloors map[uint64]bool // floors at which a cancelled prune stopped
 	batchCommits atomic.Int64
 	cancelAt     atomic.Int64
+	// cancelAtRead: the context is cancelled right after the pruner goroutine's k-th point read
+	// of the current event (k = 1..4 lands before the sweep's first iteration: the event has been
+	// taken from its channel, the sweep has not deleted anything yet)
+	cancelAtRead atomic.Int64
+	eventReads   atomic.Int64
 	failAt       atomic.Int64 // the failAt-th batch commit of the current event fails (injected write error)
 	failFired    atomic.Bool
 	// failStore: the next block commit of the pruning node (outside pruner events) fails once
@@ -740,11 +745,37 @@ func runScenario(r *lib.Run, idx int) {
 			return
 		}
 		if cfg.Cancel && rng.IntN(2) == 0 {
+			if rng.IntN(3) == 0 {
+				// cancelled between taking the event and the sweep's first deletion (a shutdown
+				// that races with an event), or a few reads into the sweep
+				w.eventReads.Store(0)
+				w.cancelAtRead.Store(int64(1 + rng.IntN(6)))
+				w.rec.SetOnRead(func([]byte) {
+					s := w.sess
+					if s == nil || !w.inEvent.Load() || curGID() != s.gid.Load() {
+						return
+					}
+					if k := w.cancelAtRead.Load(); k > 0 && w.eventReads.Add(1) == k {
+						if f := w.cancelFn.Load(); f != nil {
+							(*f)()
+							w.r.Count("prunes_cancelled_after_a_read_of_the_pruner(before or early in the sweep)", 1)
+						}
+					}
+				})
+				return
+			}
 			k := 1 + rng.IntN(2)
 			if cfg.Batch == 1 {
 				k = 1 + rng.IntN(7)
 			}
 			w.cancelAt.Store(int64(k))
+		}
+	}
+	disarmCancel := func() {
+		w.cancelAt.Store(0)
+		w.failAt.Store(0)
+		if w.cancelAtRead.Swap(0) != 0 {
+			w.rec.SetOnRead(nil)
 		}
 	}
 	openHeld := func() []*heldView {
@@ -767,8 +798,7 @@ func runScenario(r *lib.Run, idx int) {
 		armCancel()
 		held := openHeld()
 		ev, ok := w.sendL1(n)
-		w.cancelAt.Store(0)
-		w.failAt.Store(0)
+		disarmCancel()
 		readHeld(held)
 		if !ok {
 			return
@@ -779,8 +809,7 @@ func runScenario(r *lib.Run, idx int) {
 		armCancel()
 		held := openHeld()
 		ev, ok := w.sendHead(n)
-		w.cancelAt.Store(0)
-		w.failAt.Store(0)
+		disarmCancel()
 		readHeld(held)
 		if !ok {
 			return
